@@ -346,6 +346,35 @@ pub proof fn lemma_user_field_wf(o: VolatileState, n: VolatileState, k: String)
     }
 }
 
+// every user keeps everything but (possibly) its kill channel: the state stays well formed (proved)
+pub proof fn lemma_quit_senders_taken_wf(o: VolatileState, n: VolatileState)
+    requires state_wf(o), n.users@.dom() == o.users@.dom(),
+        forall|u: String| o.users@.contains_key(u) ==> user_same_except_quit_sender(#[trigger] n.users@[u], o.users@[u]),
+        n.channels == o.channels, n.wallops_users == o.wallops_users, n.invisible_users_count == o.invisible_users_count,
+        n.operators_count == o.operators_count, n.max_users_count == o.max_users_count,
+    ensures state_wf(n)
+{
+    assert forall|u: String, d: String| #![trigger n.users@[u].channels@.contains(d)] #![trigger member(n, u, d)]
+        (n.users@.contains_key(u) && n.users@[u].channels@.contains(d)) <==> member(n, u, d) by {
+        assert((o.users@.contains_key(u) && o.users@[u].channels@.contains(d)) <==> member(o, u, d));
+    }
+    assert(sym(n));
+    assert(wallops_wf(n)) by {
+        assert forall|u: String| #[trigger] n.wallops_users@.contains(u) <==> (n.users@.contains_key(u) && n.users@[u].modes.wallops) by {
+            assert(o.wallops_users@.contains(u) <==> (o.users@.contains_key(u) && o.users@[u].modes.wallops));
+        }
+    }
+    assert forall|u: String| o.users@.contains_key(u) implies (#[trigger] o.users@[u]).modes == n.users@[u].modes by { }
+    lemma_sets_same_modes(o.users@, n.users@);
+    assert(senders_distinct(n)) by {
+        assert forall|a: String, b: String| #![trigger n.users@[a], n.users@[b]]
+            n.users@.contains_key(a) && n.users@.contains_key(b) && a != b implies n.users@[a].sender.id() != n.users@[b].sender.id() by {
+            assert(n.users@[a].sender == o.users@[a].sender);
+            assert(n.users@[b].sender == o.users@[b].sender);
+        }
+    }
+}
+
 impl MainState {
 //@fn state/rest_cmds.rs MainState::process_die unit=oper2 props=C11,C05 rules=R1,R2
 //@spec
@@ -356,10 +385,18 @@ impl MainState {
             !old(state).users@[my_nick(*old(conn_state))].modes.oper ==> vs_same(*final(state), *old(state)) // @prop C11
                 && final(conn_state).stream.log() == old(conn_state).stream.log().push(fed(self.config.name@,
                     Reply::ErrCantKillServer483 { client: str_of(client_name_spec(old(conn_state).user_state)) })),
+            // for an operator every user's kill channel is taken; nothing else of the registry moves
+            state_wf(*final(state)), conn_ok(*final(conn_state), *final(state)), // @prop C04,C02
 //@opaque ~for u in state\.users\.values_mut\(\)
             verif_die_signal_all(&mut state.users, user_nick, message)?;
 //@open
         broadcast use group_hash_axioms, bridge;
+        proof {
+            assert forall|n: VolatileState| #![trigger state_wf(n)]
+                n.users@.dom() == old(state).users@.dom() && (forall|u: String| old(state).users@.contains_key(u) ==> user_same_except_quit_sender(#[trigger] n.users@[u], old(state).users@[u]))
+                && n.channels == old(state).channels && n.wallops_users == old(state).wallops_users && n.invisible_users_count == old(state).invisible_users_count
+                && n.operators_count == old(state).operators_count && n.max_users_count == old(state).max_users_count implies state_wf(n) by { lemma_quit_senders_taken_wf(*old(state), n); }
+        }
 //@end
 }
 // ASSUMED stand-in for the loop `for u in state.users.values_mut() { if let Some(sender) = u.quit_sender.take() { sender.send(..)?; } }`
@@ -378,6 +415,7 @@ impl MainState {
         ensures
             conn_same_but_stream(*final(conn_state), *old(conn_state)), // @prop C11
             !old(state).users@[my_nick(*old(conn_state))].modes.oper ==> vs_same(*final(state), *old(state)), // @prop C11
+            state_wf(*final(state)), conn_ok(*final(conn_state), *final(state)), // @prop C04,C02
 //@open
         broadcast use group_hash_axioms, bridge, string_eq;
 //@end
